@@ -38,14 +38,17 @@ class GridSearchOptimizer(BaseOptimizer):
         self.step_size = step_size
         self.direction = direction
 
+        # the inner optimizer is seeded with this optimizer's random_seed (which
+        # already includes nth_process): with random_state=None it would draw a
+        # second seed and the run could not be reproduced from random_seed
         if direction == "orthogonal":
             self.grid_search_opt = OrthogonalGridSearchOptimizer(
                 search_space=search_space,
                 initialize=initialize,
                 constraints=constraints,
-                random_state=random_state,
+                random_state=self.random_seed,
                 rand_rest_p=rand_rest_p,
-                nth_process=nth_process,
+                nth_process=None,
                 step_size=step_size,
             )
         elif direction == "diagonal":
@@ -53,9 +56,9 @@ class GridSearchOptimizer(BaseOptimizer):
                 search_space=search_space,
                 initialize=initialize,
                 constraints=constraints,
-                random_state=random_state,
+                random_state=self.random_seed,
                 rand_rest_p=rand_rest_p,
-                nth_process=nth_process,
+                nth_process=None,
                 step_size=step_size,
             )
         else:
